@@ -78,3 +78,61 @@ package internal
 //@ lemma[C16,C04] bv overlapmember: forall k uint32, b1 int, e1 int, b2 int, e2 int ::
 //@     validIv(b1, e1) && validIv(b2, e2) && b1 < e2 && b2 < e1 && k <= maxBin() && binContains(k, b2, e2)
 //@         ==> binOverlaps(k, b1, e1)
+
+// Reading a BAI or tabix index body (C11): whatever the stream delivers and
+// whatever reference count the caller read from it, the readers return an
+// index or an error. binary.Read, sort.Sort and sort.IsSorted are modelled by
+// the verifier (arbitrary value of the target type / arbitrary element order).
+//@ trusted func ext:fmt.Errorf
+//@   ensures result != nil
+//@ trusted func ext:io.ReadFull
+//@   modifies buf[:], object(r).err
+//@   ensures 0 <= n && n <= len(buf)
+//@   ensures err == nil <==> n == len(buf)
+//@ trusted func ext:encoding/binary.littleEndian.Uint64
+//@   requires len(b) >= 8
+
+//@ func makeOffset
+//@   inline
+//@ func min
+//@   inline
+
+//@ func readChunks
+//@   mode bv
+//@   props C11
+//@   decoder
+//@   loop 0 invariant @idx 0 <= i && i <= len(chunks)
+//@   loop 0 decreases len(chunks) - i
+
+//@ func readStats
+//@   mode bv
+//@   props C11
+//@   decoder
+
+//@ func readIntervals
+//@   mode bv
+//@   props C11
+//@   decoder
+//@   loop 0 invariant @idx 0 <= i && i <= int(n) + 511 && 0 <= int(n) && len(offsets) == int(n)
+//@   loop 0 decreases int(n) + 512 - i
+//@   loop 1 invariant @fill 0 <= k && k <= l && 0 <= i && i + l <= int(n) && l <= 512 && len(offsets) == int(n)
+//@   loop 1 decreases l - k
+
+//@ func readBins
+//@   mode bv
+//@   props C11
+//@   decoder
+//@   loop 0 invariant @idx 0 <= i && i <= len(bins) && fresh(bins)
+//@   loop 0 decreases len(bins) - i
+
+//@ func readIndices
+//@   mode bv
+//@   props C11
+//@   decoder
+//@   loop 0 invariant @idx 0 <= i && i <= len(idx)
+//@   loop 0 decreases len(idx) - i
+
+//@ func ReadIndex
+//@   mode bv
+//@   props C11
+//@   decoder
